@@ -781,7 +781,9 @@ class Paths:
                 effects.append(("write", self._lvalue_place(x[1], r, f), f(x[2])))
             else:
                 y2 = tuple(f(y) if _is_tree(y) else y for y in x)
-                if x[0] == "call" and len(y2) > 1 and _is_tree(y2[1]) and y2[1][0] != "call":
+                def _is_fncall(n_):
+                    return _is_tree(n_) and n_[0] == "call" and n_[1].split("::")[-1] in ("call", "call_mut", "call_once") and "::function::Fn" in n_[1]
+                if x[0] == "call" and len(y2) > 1 and _is_tree(y2[1]) and (y2[1][0] != "call" or (_is_fncall(x[1]) and not _is_fncall(y2[1]))):
                     continue      # the call of a callable parameter that turned out to be a pure closure: no effect
                 if x[0] == "call" and len(y2) > 1 and _is_tree(y2[1]) and y2[1][0] == "call" and y2[1][1].split("::")[-1] in ("call", "call_mut", "call_once") \
                         and "::function::Fn" in y2[1][1] and len(y2[1][3]) == 2:
